@@ -184,6 +184,8 @@ class KroneckerProductLinearOperator(LinearOperator):
         return KroneckerProductTriangularLinearOperator(*chol_factors, upper=upper)
 
     def _diagonal(self: Float[LinearOperator, "... M N"]) -> Float[torch.Tensor, "... N"]:
+        if not all(linear_op.is_square for linear_op in self.linear_ops):
+            return super()._diagonal()
         return _kron_diag(*self.linear_ops)
 
     def _expand_batch(
